@@ -94,6 +94,9 @@ func (r *Route) addTarget(service string, targetURL *url.URL, fixedWeight float6
 		if err = t.ProcessAccessRules(); err != nil {
 			log.Printf("[ERROR] failed to process access rules: %s",
 				err.Error())
+			// fail closed: rules which cannot be parsed must not widen access.
+			// An allow list without blocks admits nobody.
+			t.accessRules = map[string][]interface{}{ipAllowTag: nil}
 		}
 
 		t.AuthScheme = opts["auth"]
